@@ -108,3 +108,40 @@ def build_survey(workbook: dict, form_name: str = "data", prefill: bool = True, 
     if prefill:
         shims.s3_prefill_xpath(survey)  # symbolic mode only; no-op in concrete replay
     return survey, warnings, js
+
+
+def names_violation(root):
+    """Reference namespace/name check (C01): every element and attribute name in the tree is an
+    XML QName, and every prefix is declared by an xmlns attribute on the root.  Returns None or a
+    short reason."""
+    from spec.xmlnames import is_ncname
+
+    declared = ["xml", "xmlns"]
+    for k in root.attributes.keys():
+        if k.startswith("xmlns:"):
+            declared.append(k[6:])
+    for e in [root] + elements(root):
+        for n in [e.tagName] + list(e.attributes.keys()):
+            parts = n.split(":")
+            if len(parts) > 2:
+                return "not a QName: " + n
+            for p in parts:
+                if not is_ncname(p):
+                    return "not an XML name: " + n
+            if len(parts) == 2 and parts[0] not in declared:
+                return "undeclared prefix: " + n
+    return None
+
+
+def chars_violation(root):
+    """every character of every text node and attribute value is an XML 1.0 Char"""
+    for e in [root] + elements(root):
+        vals = [e.getAttribute(k) for k in e.attributes.keys()]
+        for c in e.childNodes:
+            if c.nodeType == c.TEXT_NODE:
+                vals.append(c.data)
+        for v in vals:
+            for ch in v:
+                if not is_xml_char(ord(ch)):
+                    return "non-XML character U+%04X" % ord(ch)
+    return None
